@@ -1,5 +1,6 @@
 import Driver.Util
 import Driver.C01
+import Driver.C02
 /-!
 `pmdriver`: reads one case per line (`<verb> args…`), answers one line per case.
 Unknown verbs / unparsable arguments are answered `bad-op` (never defaulted).
@@ -14,7 +15,8 @@ def step (st : DState) (line : String) : DState × String :=
   match toks with
   | [] => (st, "bad-op")
   | _ =>
-    match Driver.C01.handle toks with
+    let hs : List (List String → Option String) := [Driver.C01.handle, Driver.C02.handle]
+    match hs.findSome? (fun h => h toks) with
     | some r => (st, r)
     | none => (st, "bad-op")
 
